@@ -116,6 +116,16 @@ theorem missed_frame (env : Env) (e : Entry) (v v' : Vis) (end_ : Nat) (snippet 
   rw [written_of_result hres]
   exact ⟨hres.pos, hres.indent, hres.buffer⟩
 
+/-- `line_number` counts the line breaks pushed (the invariant `line_number = count_newlines(buffer)`
+of C04's buffer machine is kept). -/
+theorem missed_line_number (env : Env) (e : Entry) (v v' : Vis) (end_ : Nat) (snippet : List Char)
+    (hspan : ValidSpan env v end_ snippet)
+    (hts : env.config.hard_tabs = true → 1 ≤ env.config.tab_spaces) (h : run env e end_ v = some v') :
+    v'.lineNumber = v.lineNumber + RF.Newline.countNewlines (render (written v v')) := by
+  obtain ⟨v'', o, h', hres⟩ := run_spec env e v end_ snippet hspan hts
+  rw [h] at h'; cases h'
+  rw [written_of_result hres]; exact hres.line
+
 example : ValidSpan (env0 big0) (vis0 ['x', ';'] 2) 8 ['/', '/', ' ', 'c', '\n', '\n'] :=
   ⟨['x', ';'], ['y'], rfl, rfl, rfl⟩
 
@@ -320,6 +330,23 @@ theorem missed_only_whitespace_and_comments (env : Env) (e : Entry) (v v' : Vis)
       · exact hlast.pieceBlank q hq
     | semi hs => exact absurd hs hsemi
   exact this
+
+/-- What the closure of `format_missing*` receives as `last_snippet` is white space, for every snippet:
+`write_snippet_inner` has always written everything else before (so the `trim_end` of
+`format_missing_indent` pushes the empty string, and `format_missing` ends with blanks of the source). -/
+theorem missed_last_snippet_blank (env : Env) (e : Entry) (v v' : Vis) (end_ : Nat)
+    (snippet : List Char) (hspan : ValidSpan env v end_ snippet)
+    (hts : env.config.hard_tabs = true → 1 ≤ env.config.tab_spaces) (h : run env e end_ v = some v') :
+    ∀ q ∈ written v v', q.tag = .last → ∀ c ∈ q.text, isWs c = true := by
+  obtain ⟨v'', o, h', hres⟩ := run_spec env e v end_ snippet hspan hts
+  rw [h] at h'; cases h'
+  rw [written_of_result hres]
+  exact hres.shape.lastBlank
+
+/-- `x` blank `y` blanks through `format_missing`: the code is copied behind fresh indentation and the
+`last` piece is empty. -/
+example : (run (env0 ['x', ' ', 'y', ' ', ' ', 'z']) .plain 5 (vis0 ['x'] 1)).map (·.log) =
+    some [⟨.blank, [' ', ' ', ' ', ' ']⟩, ⟨.code, ['y']⟩, ⟨.last, []⟩] := by decide +kernel
 
 /-! ## Blank lines (C08) -/
 
